@@ -349,7 +349,10 @@ func c14Concurrent(r *h.Result, rng *h.Rng, workers, perWorker int) {
 }
 
 func c14(r *h.Result, rng *h.Rng, tier string, replay string) error {
-	r.Rule = "reexec-model: generated log queries (≤3 matchers, ≤3 stages) × 2–5 executions with contexts advancing by 1–5 s (10 %: by a day); reexec-shape: 24 LogQL templates covering every stage kind, 7 TraceQL scripts, 3 Pyroscope selectors × 2 planners, × rounds; every case re-executes a real plan object at least twice (non-trivial); distinct by (query, contexts)"
+	r.Rule = "reexec-model: generated log queries (≤3 matchers, ≤3 stages) × 2–5 executions with contexts advancing by 1–5 s (10 %: by a day); reexec-traceql: generated TraceQL scripts (≤3 selectors, nested conditions, aggregators, 8 % with a term rejected at Process time) × contexts of 2–5 portions of a complex search / plain re-execution / mixed, 40 % dirty; reexec-dirty-logql: 22 templates beyond the model fragment + 24 templates covering every stage kind + generated metric and log queries × 2–5 executions, 70 % dirty; retranslate-api: generated texts with stages before an in-process stage × 2–4 translations; portions-real: generated TraceQL scripts × scripted complexity (1–5 portions, 15 % simple) × scripted finds per portion; reexec-model-metric: generated metric queries of the C08 fragment × 2–5 executions; fmt-model: generated templates × 2–4 calls, 50 % dirty; reexec-shape: 24 LogQL templates, 7 TraceQL scripts, 3 Pyroscope selectors × 2 planners, × rounds; every case re-executes or re-translates at least twice (non-trivial); distinct by (query, contexts)"
+	if replay != "" {
+		return c14Replay(r, replay)
+	}
 	n, rounds := 300, 2
 	if tier != "quick" {
 		n, rounds = 5000, 40
@@ -357,6 +360,18 @@ func c14(r *h.Result, rng *h.Rng, tier string, replay string) error {
 	if err := c14Model(r, rng.Fork(), n); err != nil {
 		return err
 	}
+	if err := c14TraceQL(r, rng.Fork(), n*2); err != nil {
+		return err
+	}
+	if err := c14MetricModel(r, rng.Fork(), n); err != nil {
+		return err
+	}
+	if err := c14FmtModel(r, rng.Fork(), n); err != nil {
+		return err
+	}
+	c14DirtyLogQL(r, rng.Fork(), n*2)
+	c14Retranslate(r, rng.Fork(), n)
+	c14Loop(r, rng.Fork(), n)
 	if err := c14Shape(r, rng.Fork(), rounds); err != nil {
 		return err
 	}
